@@ -331,6 +331,8 @@ def body(case):
     cls, x, xc, y, probes, y2 = case
     out = Outcome()
     out.label(f"class:{cls}")
+    import contextlib
+    shared = (len(show(x, 10000)) % 3 == 0)  # a third of the cases: x and its changed versions SHARE equal sub-objects
     try:
         ox = build_any(cls, x)
         orb = build_any(cls, x)  # rebuilt
@@ -340,9 +342,14 @@ def body(case):
         out.exc("build", e)
         return out
     try:
-        oy = build_any(cls, y)
+        with (build.sharing() if shared else contextlib.nullcontext()):
+            if shared:
+                ox = build_any(cls, x)  # built inside the sharing context together with y
+            oy = build_any(cls, y)
     except Exception:
         oy = None  # the changed term may be ill-kinded (e.g. a part kind that rejects its conditions)
+    if shared:
+        out.label("shared-sub-objects")
     objs = {"x": ox, "rebuilt": orb, "commuted": oc, "commuted-rebuilt": ocr}
     if oy is not None:
         objs["atom-changed"] = oy
@@ -383,6 +390,17 @@ def body(case):
             if a < b and eq[(a, b)] is True and beh[a] != beh[b]:
                 out.add("equal-implies-same-behaviour", f"equal-implies-same-behaviour|{cls}",
                         f"{show(objs[a],250)} == {show(objs[b],250)} but behave differently on {show(probes,150)}: {show(beh[a],150)} vs {show(beh[b],150)}")
+    # a modifier copy derived AFTER the base path has taken part in comparisons
+    if cls == "path" and x.datum is None:
+        try:
+            d1 = ox.dtype()
+            d2 = build_any(cls, x.replace(datum="dtype"))
+            if not (d1 == d2 and d2 == d1):
+                out.add("copies-equal", "copies-equal|derived-after-comparison", "base.dtype() derived after base was compared is unequal to a freshly built copy of the same definition")
+            if (d1 == ox) is True and behaviour(cls, d1, probes) != behaviour(cls, ox, probes):
+                out.add("equal-implies-same-behaviour", "equal-implies-same-behaviour|derived-after-comparison", "base.dtype() == base although they return different things")
+        except Exception as e:
+            out.exc("derived-after-comparison", e)
     # equality must not depend on the objects having been used: after all the calls above, x
     # still equals a copy built now, and the copies still equal each other
     try:
